@@ -80,15 +80,9 @@ func (z *ZodEnum[T, R]) MustParse(input any, ctx ...*core.ParseContext) R {
 
 // StrictParse provides compile-time type safety by requiring exact type R.
 func (z *ZodEnum[T, R]) StrictParse(input R, ctx ...*core.ParseContext) (R, error) {
-	return engine.ParsePrimitiveStrict[T, R](
-		input,
-		&z.internals.ZodTypeInternals,
-		core.ZodTypeEnum,
-		func(value T, checks []core.ZodCheck, ctx *core.ParseContext) (T, error) {
-			return z.validateEnum(value, checks, ctx)
-		},
-		ctx...,
-	)
+	// StrictParse must answer exactly what Parse answers: the statically typed input is a valid
+	// Parse input, so run the one pipeline.
+	return z.Parse(input, ctx...)
 }
 
 // MustStrictParse provides compile-time type safety and panics on failure.
